@@ -605,4 +605,16 @@ theorem findTaskids_spec (s : MState) (hi : MInv s) (startDeps : List Path)
          Dfs3.toposort_mem_iff (gOf s.idx) _ _ _ hfuel hstart hclosed hac,
          Dfs3.toposort_before (gOf s.idx) _ _ _ hfuel hstart hclosed hac⟩
 
+/-- the part of the above that holds for every graph, cyclic or not: no duplicates, exactly the reachable tasks -/
+theorem findTaskids_once_exact (s : MState) (hi : MInv s) (startDeps : List Path) :
+    (findTaskids s.idx startDeps).Nodup ∧
+    (∀ x, x ∈ findTaskids s.idx startDeps ↔ ∃ s0 ∈ startOf s.idx startDeps, Dfs3.Reach (gOf s.idx) s0 x) := by
+  have hfuel := fuelOf_ge s hi
+  have hstart := fun k hk => startOf_sub s hi startDeps k hk
+  have hclosed : ∀ u ∈ s.defs.map (·.id), ∀ w ∈ gOf s.idx u, w ∈ s.defs.map (·.id) :=
+    fun u _ w hw => gOf_closed s hi u w hw
+  unfold findTaskids
+  exact ⟨Dfs3.toposort_nodup' (gOf s.idx) _ _ _ hfuel hstart hclosed,
+         Dfs3.toposort_mem_iff' (gOf s.idx) _ _ _ hfuel hstart hclosed⟩
+
 end Manager
